@@ -9,14 +9,19 @@ Legs
                        deviations from the defaults; every distinct ordering of the multiset is executed.
   B  cooldowns       : every ops list (<= 2 ops) x cooldown menu x last-turn history x turn x delta multiset with
                        op provenance (op_idx in {None,0,1}) x a few caps; every distinct ordering executed.
-  B2 accessor shapes : state shape {object, dict, absent} x turn-id type {int, str} x plan shape {Plan, dict}.
-  C  context shapes  : the configuration offered as ctx.config / ctx.cfg / both, as Config dataclass, attribute-dict
-                       (run_smoke_turn's shape) and plain dict (what validate_config returns).
+  B2 accessor shapes : container shape of EVERY level of the documented path state.meta.cooldowns, independently
+                       (state {object, dict, attribute-dict} x meta {object, dict, attribute-dict}; for an empty
+                       history also every way a level can be missing: no meta entry, meta None, meta without a
+                       cooldowns entry, cooldowns None) x turn-id type {int, str} x plan shape {Plan, dict}.
+  C  context shapes  : the configuration offered as ctx.config / ctx.cfg / both x root container {Config dataclass,
+                       attribute-dict (run_smoke_turn's shape), plain dict (what validate_config returns)}
+                       (+ the declared TurnCtx dataclass, which only has cfg).
 
 Oracle clauses (signature prefix): envelope:* (invariants of the statement, independent of the reference),
 report:* (blocked ops reported), ref:* (documented pipeline), perm:* (order independence, all permutations),
 purity:* (arguments unmutated, repeat call equal, unrelated junk / call history irrelevant),
-ctx-shape:* (configured caps ignored for a context shape), raises:*.
+ctx-shape:* (configured caps ignored for a context shape), state-shape:* (the filter's own outcome for one logical
+cooldown history differs between container shapes of state / meta), raises:*.
 """
 from __future__ import annotations
 
@@ -139,26 +144,34 @@ def _to_attrdict(o):
     return o
 
 
-CTX_SHAPES = ["both", "config-only", "cfg-only:TurnCtx", "cfg-only:attrdict", "both:plain-dict"]
+CTX_NAMES = ["both", "config-only", "cfg-only"]
+CTX_ROOTS = ["Config", "attrdict", "plain-dict"]
+# every (attribute name(s) the configuration is offered under) x (container type of the configuration root), plus the
+# declared TurnCtx dataclass (which only has `cfg`); "<names>" alone means the Config dataclass root
+CTX_SHAPES = (["both", "config-only", "cfg-only:TurnCtx"] + ["%s:%s" % (n, r) for r in CTX_ROOTS[1:] for n in CTX_NAMES]
+              + ["cfg-only:Config"])
 
 
 def build_ctx(shape, full_cfg, turn, turn_type, junk=False):
     tid = str(turn) if turn_type == "str" else int(turn)
-    if shape == "cfg-only:attrdict":      # exactly run_smoke_turn's context
-        ctx = NS(turn_id=tid, agent_id="A", now=None, now_ms=0, cfg=_to_attrdict(copy.deepcopy(full_cfg)))
-    elif shape == "both:plain-dict":      # what validate_config returns, offered under both names (bench_t4 / tests)
-        d = copy.deepcopy(full_cfg)
-        ctx = NS(turn_id=tid, agent_id="A", config=d, cfg=d)
+    names, _, root = shape.partition(":")
+    root = root or "Config"
+    if names not in CTX_NAMES or root not in CTX_ROOTS + ["TurnCtx"] or (root == "TurnCtx" and names != "cfg-only"):
+        raise HarnessError("unknown ctx shape %r" % (shape,))
+    if root == "attrdict":        # run_smoke_turn's context wraps the validated config like this
+        cfgobj = _to_attrdict(copy.deepcopy(full_cfg))
+    elif root == "plain-dict":    # what validate_config returns (bench_t4 / tests)
+        cfgobj = copy.deepcopy(full_cfg)
     else:
         cfgobj = Config(t4=copy.deepcopy(full_cfg["t4"]))
-        if shape == "cfg-only:TurnCtx":   # the declared TurnCtx dataclass only has `cfg`; its turn_id is a str
-            ctx = TurnCtx(turn_id=tid, agent_id="A", scene_tags=[], now="2025-01-01T00:00:00Z", cfg=cfgobj)
-        elif shape == "config-only":
-            ctx = NS(turn_id=tid, agent_id="A", config=cfgobj)
-        elif shape == "both":
-            ctx = NS(turn_id=tid, agent_id="A", config=cfgobj, cfg=cfgobj)
-        else:
-            raise HarnessError("unknown ctx shape %r" % (shape,))
+    if root == "TurnCtx":         # the declared TurnCtx dataclass only has `cfg`; its turn_id is a str
+        ctx = TurnCtx(turn_id=tid, agent_id="A", scene_tags=[], now="2025-01-01T00:00:00Z", cfg=cfgobj)
+    else:
+        ctx = NS(turn_id=tid, agent_id="A", now=None, now_ms=0)
+        if names in ("both", "config-only"):
+            ctx.config = cfgobj
+        if names in ("both", "cfg-only"):
+            ctx.cfg = cfgobj
     if junk:
         ctx.junk = {"t4": {"novelty_cap_per_node": 1e-9, "churn_cap_edges": 0}}
         ctx.agent_id = "someone-else"
@@ -199,25 +212,68 @@ def get_ctx(shape, full_cfg, key, turn, turn_type, junk=False):
     return hit[0], hit[1], k
 
 
-def build_state(shape, last, junk=False):
-    if shape == "absent":
-        st = NS()
-    elif shape == "dict":
-        st = {"meta": {"cooldowns": dict(last)}, "version_etag": "0"}
-        if junk:
-            st["junk"] = [1, 2, 3]
-            st["meta"]["other"] = {"EditGraph": 0}
-        return st
-    elif shape == "ns":
-        st = NS(meta=NS(cooldowns=dict(last)))
-        if junk:
-            st.meta.other = {"EditGraph": 0}
-    else:
+STATE_KINDS = ["ns", "dict", "adict"]     # attribute-style object, plain mapping, mapping that also answers attributes
+_LEGACY_STATE_SHAPES = {"ns": "ns/ns", "dict": "dict/dict", "absent": "ns/-"}
+
+
+def parse_state_shape(shape):
+    """'<state>/<meta>[/<cooldowns>]': container kind of the state and of state.meta (STATE_KINDS); meta may also be '-'
+    (no meta entry at all) or 'none' (entry present, value None); the optional third part says that the meta container
+    has no cooldowns entry ('-') or carries None ('none').  Legacy names ns / dict / absent are kept for stored replays."""
+    parts = _LEGACY_STATE_SHAPES.get(shape, shape).split("/")
+    if len(parts) == 2:
+        parts.append("map")
+    if (len(parts) != 3 or parts[0] not in STATE_KINDS or parts[1] not in STATE_KINDS + ["-", "none"]
+            or parts[2] not in ("map", "-", "none") or (parts[1] in ("-", "none") and parts[2] != "map")):
         raise HarnessError("unknown state shape %r" % (shape,))
+    return tuple(parts)
+
+
+def state_shape_has_history(shape):
+    p = parse_state_shape(shape)
+    return p[1] in STATE_KINDS and p[2] == "map"
+
+
+def state_shapes(empty_history: bool):
+    """every container-shape combination of the two levels of state.meta.cooldowns; for an empty history additionally
+    every way one of the levels can be missing"""
+    out = ["%s/%s" % (s_, m) for s_ in STATE_KINDS for m in STATE_KINDS]
+    if empty_history:
+        out += ["%s/%s" % (s_, m) for s_ in STATE_KINDS for m in ("-", "none")]
+        out += ["%s/%s/%s" % (s_, m, c) for s_ in STATE_KINDS for m in STATE_KINDS for c in ("-", "none")]
+    return out
+
+
+def _container(kind, content):
+    if kind == "ns":
+        return NS(**content)
+    if kind == "adict":
+        return _AttrDict(content)
+    return dict(content)
+
+
+def build_state(shape, last, junk=False):
+    sk, mk, ck = parse_state_shape(shape)
+    if last and not (mk in STATE_KINDS and ck == "map"):
+        raise HarnessError("state shape %r cannot carry the history %r" % (shape, last))
+    top = {}
+    if mk == "none":
+        top["meta"] = None
+    elif mk != "-":
+        meta = {}
+        if ck == "map":
+            meta["cooldowns"] = dict(last)
+        elif ck == "none":
+            meta["cooldowns"] = None
+        if junk:
+            meta["other"] = {"EditGraph": 0}
+        top["meta"] = _container(mk, meta)
+    if sk != "ns":
+        top["version_etag"] = "0"
     if junk:
-        st.junk = [1, 2, 3]
-        st.cooldowns = {"EditGraph": 0, "Speak": 0}   # not where the history lives (state.meta.cooldowns)
-    return st
+        top["junk"] = [1, 2, 3]
+        top["cooldowns"] = {"EditGraph": 0, "Speak": 0}   # not where the history lives (state.meta.cooldowns)
+    return _container(sk, top)
 
 
 def _c2(v):
@@ -594,6 +650,26 @@ def run_case(deltas, op_specs, caps, cooldowns, last, turn=5, turn_type="int", s
                 st.distinct("outcomes", ("ctx-shape", group, bool(hard)))
             account(unvalidated=2)      # the two diagnostic calls are not reference comparisons
             return out
+    canon_shape = "/".join(parse_state_shape(state_shape)[:2])
+    if canon_shape != "ns/ns" and any(not soft(f[0]) for f in found):
+        # Does the container shape of state / meta explain the failure?  Decided on the implementation itself
+        # (differential twin): its outcome for the SAME logical history offered in the all-attribute shape differs.
+        try:
+            nres = call_impl(ctx, build_state("ns/ns", last), plan)
+            ncalls += 1
+        except Exception:
+            nres = None
+        if nres is not None and nres[:4] != base[:4]:
+            first = [f for f in found if not soft(f[0])][0]
+            sk, mk, ck = parse_state_shape(state_shape)
+            add("state-shape:%s-state/%s-meta" % (sk, mk),
+                "state shape %s, history %r, cooldowns %r, turn %r: outcome %r differs from the filter's own outcome %r for the "
+                "same history as object state / object meta; %s: %s" % (state_shape, last, cooldowns, turn, base[:3], nres[:3],
+                                                                         first[0], first[1]))
+            if st is not None:
+                st.distinct("outcomes", ("state-shape", sk, mk))
+            account(unvalidated=1)      # the diagnostic call is not a reference comparison
+            return out
     for sig, what in found:
         if soft(sig):
             n_soft += 1
@@ -868,15 +944,14 @@ def run(run: Run) -> None:
         for (cds, last, turn) in small_worlds:
             for ms in small_ms:
                 deltas = tuple((TARGETS[small_items[i][0]], small_items[i][1], small_items[i][2]) for i in ms)
-                for state_shape in ("ns", "dict", "absent"):
-                    if state_shape == "absent" and last:
-                        continue
+                for state_shape in state_shapes(not last):
                     for turn_type in ("int", "str"):
                         for plan_shape in ("plan", "dict"):
                             shapes.append((deltas, op_specs, dict(DEFAULT_CAPS), cds, last, turn, turn_type, state_shape,
                                            "both", plan_shape))
     run.pmap(_leg_shapes, list(enumerate(shapes)), extra=(8,), chunks=NCHUNKS)
     run.notes["legB2_cases"] = len(shapes)
+    run.notes["legB2_state_shapes"] = "%d with a history, %d for an empty history" % (len(state_shapes(False)), len(state_shapes(True)))
 
     # ---- leg C: context shapes -----------------------------------------------------------------
     c_items = [(1, 0.25, 0), (3, -1.0, 0), (1, 4.0, None)]
@@ -892,6 +967,7 @@ def run(run: Run) -> None:
                     c_cases.append((deltas, ("EditGraph",), caps, cds, last, turn, tt, "dict", shape, "plan"))
     run.pmap(_leg_shapes, list(enumerate(c_cases)), extra=(9,), chunks=NCHUNKS)
     run.notes["legC_cases"] = len(c_cases)
+    run.notes["legC_ctx_shapes"] = len(CTX_SHAPES)
 
     # ---- leg D: history independence with partial / absent t4 sections ---------------------------
     d_cases = [(po, pa, ms) for po in (None, 0, 1) for pa in range(len(PARTIAL_T4)) for ms in multisets(range(4), 3)]
@@ -901,15 +977,20 @@ def run(run: Run) -> None:
     run.rule = (
         "A (no ops): %s; caps alphabet novelty {2^-20,0.3,1}, L2 {2^-10,0.3,1.5,1e9%s}, churn {0,1,2,64}.  "
         "B: every ops list of <=2 ops over {Speak,EditGraph,CreateGraph,dict-op} (21) x 7 cooldown menus x last-turn "
-        "histories {absent,t,t-1,t-cd,t-cd-1} x turn {0,5} (%d worlds) x %s.  B2: state {object,dict,absent} x turn id "
-        "{int,str} x plan {Plan,dict}.  C: 5 context shapes x all caps settings x 3 cooldown worlds.  Every case = canonical "
+        "histories {absent,t,t-1,t-cd,t-cd-1} x turn {0,5} (%d worlds) x %s.  B2: the 40 worlds of the menus {EditGraph:2} and {EditGraph:2,CreateGraph:10} x 4 ops "
+        "lists x every multiset of <=2 of 4 deltas x container shape of each level of state.meta.cooldowns independently "
+        "(state {object,dict,attribute-dict} x meta {object,dict,attribute-dict} = 9; for an empty history also meta "
+        "{missing,None} and cooldowns {missing,None}: 33) x turn id {int,str} x plan {Plan,dict}.  C: %d context shapes "
+        "(config offered as ctx.config / ctx.cfg / both x root {Config dataclass, attribute-dict, plain dict} + declared "
+        "TurnCtx) x all caps settings x 3 cooldown worlds.  Every case = canonical "
         "ordering + every other distinct permutation of the delta list (each compared with the Fraction reference pipeline "
         "through the first result and envelope-checked) + repeat call with fresh junk-laden ctx/state.  non-trivial = some "
         "stage acted (a reason reported / op blocked) or duplicate targets or ops present"
         % (a_desc, ",inf" if th else "", len(worlds),
            ("every multiset of <=2 deltas over 2 targets x {1/4,1} x op_idx {None,0,1} x caps with <=1 deviation (%d), "
             "every multiset of exactly 3 such deltas x default caps" % len(caps_1)) if th else
-           "every multiset of <=2 deltas over 2 targets x {1/4,1} x op_idx {None,0,1} x caps {default, churn=1}"))
+           "every multiset of <=2 deltas over 2 targets x {1/4,1} x op_idx {None,0,1} x caps {default, churn=1}",
+           len(CTX_SHAPES)))
     run.assume("Float absorption when duplicates of incomparable magnitude are merged (1e300 + 0.25 - 1e300 on one target) "
                "makes any one-by-one float summation order dependent; multisets whose per-target sub-sums are not all exactly "
                "representable are executed and envelope/purity-checked, but reference/permutation mismatches there are counted "
@@ -917,6 +998,11 @@ def run(run: Run) -> None:
     run.assume("Cooldown semantics taken from the documented behaviour: an op of kind K is in cooldown iff t4.cooldowns[K] > 0, "
                "state.meta.cooldowns[K] = L is recorded and turn - L < cooldown; last turns in the future and non-integer "
                "last turns are outside the alphabet.")
+    run.assume("The cooldown history is the mapping reachable as state.meta.cooldowns, where each of the two levels may be read "
+               "attribute-style or mapping-style independently of the other (t4.py: 'Try object.attr then dict-style fallbacks'; "
+               "restored snapshots hang dict metas on state objects); a missing / None level means no history.  A failure that "
+               "the filter's own outcome for the same history in the object/object shape does not share is reported once "
+               "per shape as state-shape:*.")
     run.assume("A merged duplicate carries the smallest op index of its contributors (documented provenance rule); whether a "
                "blocked op's contribution may survive inside a merged delta owned by a lower-indexed free op is not judged "
                "(counted as obs_blocked_contribution_survives_by_min_op_idx).")
